@@ -176,9 +176,11 @@ def build(node, env=None, path='r'):
     if op == 'batch_map':
         i = node['fn']
         return done(ds.batch_map(env.fn(path, functools.partial(progs.f_wrap, i))))
+    if op == 'nonemap':
+        return done(ds.map(env.fn(path, functools.partial(progs.f_none, node['m'], node['r']))))
     if op == 'filter':
-        return done(ds.filter(env.fn(path, functools.partial(progs.f_pred, node['m'], node['r'])),
-                              lazy=node['lazy']))
+        pred = progs.f_pred_int if node.get('int') else progs.f_pred
+        return done(ds.filter(env.fn(path, functools.partial(pred, node['m'], node['r'])), lazy=node['lazy']))
     if op == 'slice':
         return done(ds[make_form(node['form'])])
     if op == 'shuffle_once':
@@ -207,7 +209,9 @@ def build(node, env=None, path='r'):
         return done(ds.items())
     if op == 'tile':
         if node.get('shuffle'):
-            return done(ds.tile(node['r'], shuffle=True))  # global numpy RNG: the caller seeds it
+            if 'np_seed' in node:
+                np.random.seed(node['np_seed'])
+            return done(ds.tile(node['r'], shuffle=True))  # draws from the global numpy generator
         return done(ds.tile(node['r']))
     if op == 'concat_shuffled':
         parts = [ds.shuffle() for _ in range(node['r'])]
@@ -216,9 +220,10 @@ def build(node, env=None, path='r'):
         return done(ds.cache(lazy=node['lazy']))
     if op == 'catch':
         spec = node['exc']
+        kw = {'warn': True} if node.get('warn') else {}
         if spec is None:
-            return done(ds.catch())
-        return done(ds.catch(progs.exc_spec(spec)))
+            return done(ds.catch(**kw))
+        return done(ds.catch(progs.exc_spec(spec), **kw))
     if op == 'copy':
         return done(ds.copy(freeze=node['freeze']))
     if op == 'prefetch':
